@@ -21,16 +21,15 @@ echo "demo with change rc=$RC_WITH (want !=0), without rc=$RC_WITHOUT (want 0), 
 if [ $RC_WITH -eq 0 ] || [ $RC_WITHOUT -ne 0 ] || [ $RC_SUITE -ne 0 ]; then echo "SEED NOT CONFIRMED"; exit 1; fi
 mkdir -p /verif/seeded/$NAME
 rm -rf /verif/seeded/$NAME/*; cp -r SEED/* /verif/seeded/$NAME/
-cd /repo
-git apply --check /verif/seeded/$NAME/patch.diff || { echo "patch does not apply to /repo"; exit 2; }
-git apply /verif/seeded/$NAME/patch.diff
-trap 'cd /repo && git apply -R /verif/seeded/'$NAME'/patch.diff 2>/dev/null || git checkout -- pkg cmd' EXIT
+# run the checks against the scratch worktree that has the change applied (VERIF_REPO), so that /repo itself stays untouched and
+# nothing else that is running against /repo is disturbed; equivalent to `git -C /repo apply` + check + undo
+cd "$WT"; git diff --quiet && git apply SEED/patch.diff
 RES=""
 for ID in "$@"; do
-  OUT=$(/verif/check.sh $ID quick 2>&1); RC=$?
+  OUT=$(VERIF_REPO="$WT" /verif/check.sh $ID quick 2>&1); RC=$?
   NV=$(echo "$OUT" | grep -c '^VIOLATION')
   echo "== $ID quick: rc=$RC violations=$NV"
-  echo "$OUT" | grep "violations with sig" | head -5
+  echo "$OUT" | grep "violations with sig\|BUILD-FAILED" | head -5
   RES="$RES $ID:rc=$RC:viol=$NV"
 done
 echo "RESULT $NAME$RES"
